@@ -7,9 +7,13 @@ import (
 	"bytes"
 	"compress/gzip"
 	"context"
+	"crypto/tls"
 	"encoding/binary"
 	"fmt"
+	"io"
 	"net"
+	"net/http"
+	"net/http/httptest"
 	"runtime"
 	"strings"
 	"time"
@@ -328,7 +332,7 @@ func generate(thorough bool, emit func(kase)) {
 		}
 	}
 	// (v) DoH response bodies: content-length missing / lying / over the cap, with bodies up to 8 MiB (see runCase)
-	for _, v := range []string{"no-length-1MiB", "no-length-8MiB", "length-65536", "length-70000", "length-negative", "length-garbage", "length-10-body-5", "length-5-body-1MiB", "length-65535-full", "gzip-8MiB-in-9KB", "deflate-8MiB-in-9KB", "status-403", "status-400", "status-403-body-8MiB", "status-404-body-8MiB-no-length"} {
+	for _, v := range []string{"no-length-1MiB", "no-length-8MiB", "length-65536", "length-70000", "length-negative", "length-garbage", "length-10-body-5", "length-5-body-1MiB", "length-65535-full", "gzip-8MiB-in-9KB", "deflate-8MiB-in-9KB", "status-403", "status-400", "status-403-body-8MiB", "status-404-body-8MiB-no-length", "real-transport-plain", "real-transport-gzip-8MiB", "real-transport-chunked-8MiB"} {
 		emit(kase{Family: "doh-body", Desc: v, Msg: append(hdr(1, 0, 0, 0), qA...)})
 	}
 	// (iii) header counts x number of records actually present
@@ -482,6 +486,59 @@ func runDoHBody(k kase, srv *dohmem.Server, res *ech.Resolver) (r workers.Result
 	valid = append(valid, rrFixed(1, 60, 4)...)
 	valid = append(valid, 10, 0, 0, 1)
 	big := func(n int) []byte { return append(append([]byte{}, valid...), make([]byte, n-len(valid))...) }
+	if strings.HasPrefix(k.Desc, "real-transport-") {
+		// the same hostile bodies through a REAL http.Transport over loopback TLS (the in-memory responder sits below the
+		// transport's own handling of Content-Encoding: what the transport inflates on the client's behalf is only seen this way)
+		var zb bytes.Buffer
+		zw := gzip.NewWriter(&zb)
+		bigBody := big(8 << 20)
+		zw.Write(bigBody)
+		zw.Close()
+		ts := httptest.NewTLSServer(http.HandlerFunc(func(w http.ResponseWriter, req *http.Request) {
+			io.Copy(io.Discard, req.Body)
+			w.Header().Set("Content-Type", "application/dns-message")
+			switch {
+			case k.Desc == "real-transport-gzip-8MiB" && strings.Contains(req.Header.Get("Accept-Encoding"), "gzip"):
+				w.Header().Set("Content-Encoding", "gzip")
+				w.Write(zb.Bytes())
+			case k.Desc == "real-transport-chunked-8MiB":
+				w.(http.Flusher).Flush() // no Content-Length: chunked
+				w.Write(bigBody)
+			default:
+				w.Write(valid)
+			}
+		}))
+		defer ts.Close()
+		prev := dns.VerifRoundTripper
+		tr := &http.Transport{TLSClientConfig: &tls.Config{InsecureSkipVerify: true}}
+		dns.VerifRoundTripper = tr
+		defer func() { dns.VerifRoundTripper = prev; tr.CloseIdleConnections() }()
+		res2, err := ech.NewResolver(ts.URL + "/dns-query")
+		if err != nil {
+			r.Viol, r.What = "tool:real-transport", err.Error()
+			return
+		}
+		var ms0, ms1 runtime.MemStats
+		runtime.ReadMemStats(&ms0)
+		func() {
+			defer func() {
+				if p := recover(); p != nil {
+					r.Viol, r.What = "panic:doh-body", fmt.Sprintf("Resolve panicked: %v", p)
+				}
+			}()
+			ctx, cancel := context.WithTimeout(context.Background(), 10*time.Second)
+			defer cancel()
+			_, err := res2.Resolve(ctx, "a")
+			r.Outcome = fmt.Sprintf("doh-body %s -> err=%v", k.Desc, err != nil)
+		}()
+		runtime.ReadMemStats(&ms1)
+		// (the server side of the loopback connection lives in this process too: it writes the compressed body from one buffer;
+		// TLS records and the transport's own buffers are bounded)
+		if alloc := ms1.TotalAlloc - ms0.TotalAlloc; alloc > 4<<20 && r.Viol == "" {
+			r.Viol, r.What = "alloc:doh-body:"+k.Desc, fmt.Sprintf("consuming the DoH response allocated %d bytes: the body size cap (65535) is not enforced on what the transport inflates", alloc)
+		}
+		return
+	}
 	a := dohmem.Answer{}
 	switch k.Desc {
 	case "no-length-1MiB":
